@@ -220,7 +220,27 @@ func (be *buildEnv) FetchSourcePackage(ctx context.Context, sourceType string, u
 		}
 	}
 	if len(p.Extras) > 0 {
-		if err := gen.Materialise(targetDir, gen.TreeSpec{Nodes: p.Extras}); err != nil {
+		extras := p.Extras
+		copied := false
+		for k, n := range extras {
+			if strings.Contains(n.Target, "{SIBLING}") {
+				// name of a package directory that is already installed in the bundle
+				sib := "no-sibling-installed-yet"
+				if ents, err := os.ReadDir(filepath.Dir(targetDir)); err == nil {
+					for _, e := range ents {
+						if e.IsDir() && !strings.HasPrefix(e.Name(), ".tmp-") {
+							sib = e.Name()
+						}
+					}
+				}
+				if !copied {
+					extras = append([]gen.NodeSpec{}, p.Extras...)
+					copied = true
+				}
+				extras[k].Target = strings.ReplaceAll(n.Target, "{SIBLING}", sib)
+			}
+		}
+		if err := gen.Materialise(targetDir, gen.TreeSpec{Nodes: extras}); err != nil {
 			return resp, fmt.Errorf("harness: cannot materialise package extras: %w", err)
 		}
 	}
@@ -379,6 +399,7 @@ func (f *hFinder) FindDependencies(fsys fs.FS, subPath string, deps *sourcebundl
 		return diags
 	case "warning-diag":
 		diags = append(diags, hDiag{sev: sourcebundle.DiagWarning, summary: fmt.Sprintf("injected finder warning #%d", n), detail: "detail of injected warning", file: path.Join(subPath, "main.tf"), ctxFile: "", extra: fmt.Sprintf("extra-%d", n)})
+		diags = append(diags, hDiag{sev: sourcebundle.DiagWarning, summary: fmt.Sprintf("context-only warning #%d", n), detail: "has a context range but no subject", file: "", ctxFile: path.Join(subPath, "only-ctx.tf")})
 	}
 	for _, d := range p.Deps[gen.DepKey(subPath, f.idx)] {
 		df := be.finders[d.Finder%len(be.finders)]
